@@ -309,7 +309,6 @@ struct Pass {
     g_arch_cap = -1;
     out.clear(); if (ret > 0 && ret <= mb) out.assign(ob.p, ob.p + ret);
     opus_int32 r = 0; obj_get(cfg, m, OPUS_GET_FINAL_RANGE_REQUEST, &r); *rg = (opus_uint32)r;
-    if (!ob.tail_ok()) throw Violation{"enc_wrote_past_max_data_bytes", "statesim"};
     return ret;
   }
   int decode_raw(Twin &t, const unsigned char *data, int len, int frame_size, int fec, int fmt, uint64_t *h, opus_uint32 *rg) {
